@@ -113,6 +113,7 @@ func (srv *Server) Serve(listener net.Listener) error {
 		}
 
 		go func() {
+			defer verifRecover()
 			ctx := context.Background()
 			err = srv.serve(ctx, conn)
 			if err != nil && err != io.EOF {
@@ -178,8 +179,11 @@ func (srv *Server) Close() error {
 		return nil
 	}
 
+	verifPoint("close.checked")
 	srv.closing.Store(true)
 	close(srv.closer)
+	verifPoint("close.closed")
 	srv.wg.Wait()
+	verifPoint("close.waited")
 	return nil
 }
